@@ -90,7 +90,9 @@ where
 		use_test_rng,
 	)?;
 	for t in &tx {
-		if t.tx_type == TxLogEntryType::TxReceived {
+		// (a reverted entry is a received transaction whose block was reorganised away: it
+		// is still the same payment, and is confirmed again when it is mined again)
+		if t.tx_type == TxLogEntryType::TxReceived || t.tx_type == TxLogEntryType::TxReverted {
 			return Err(Error::TransactionAlreadyReceived(ret_slate.id.to_string()));
 		}
 	}
